@@ -12,7 +12,7 @@ use palette::hues::Cam16Hue;
 use palette::{Alpha, LabHue, LuvHue, OklabHue, RgbHue};
 use serde::de::DeserializeOwned;
 use serde::{Deserialize, Serialize};
-use simcore::types::*;
+use crate::types::*;
 use std::fmt::Debug;
 use std::io::{Read, Write};
 
@@ -596,7 +596,7 @@ pub mod user {
 // ---- alpha of another scalar type than the color's components
 pub mod mixed {
     use super::*;
-    use simcore::types::{HsvC, RgbC};
+    use crate::types::{HsvC, RgbC};
 
     macro_rules! mixed_case {
         ($id:ident, $name:literal, $col:ty, $ct:literal, $at:ty, $atn:literal, $sername:literal, $fields:expr, $hue:expr, $inner:literal) => {
